@@ -13,6 +13,7 @@ import lexid
 
 from . import version
 from . import v2patterns
+from . import _verif
 
 logger = logging.getLogger("bumpver.v2version")
 
@@ -796,6 +797,7 @@ def incr(
     )
 
     new_version = format_version(cur_vinfo, raw_pattern)
+    _verif.emit("incr.render", pattern=raw_pattern, old=old_version, vinfo=cur_vinfo, text=new_version)
 
     if new_version == "":
         return None
